@@ -1,18 +1,25 @@
 (* C01/Spec.v — the predicates in which the property's clauses are stated (definitions only, no
    proofs): durability of a request in a store, the crash invariant, well-formed stores, the
-   number of storage calls of an action, and the side condition of the _partial theorems
-   ("no incarnation dies or is refused inside start-up recovery after its delete batch"). *)
+   number of storage calls of an action. *)
 From Verif Require Import Common.Base C01.Model.
 
 (* the dispatched list as a restarted process decodes it (missing key = empty) *)
 Definition di_of (st : store) : list N := match s_di st with Some l => l | None => [] end.
 
+(* the indexes as a restarted process decodes them (initPersistentContiguousStorage): a write
+   index without a read index means "nothing read yet"; no write index means a new queue *)
+Definition eff (st : store) : N * N :=
+  match s_ri st, s_wi st with
+  | Some r, Some w => (r, w)
+  | None, Some w => (0%N, w)
+  | _, None => (0%N, 0%N)
+  end.
+
 (* request id [r] is durable in [st]: its body is stored under an index that a restarted process
-   will look at — one in [ri, wi) or one listed under "di".  (When "ri" or "wi" is missing the
-   code resets both to 0, so the range is empty.) *)
+   will look at — one in [ri, wi) or one listed under "di" whose body is still stored. *)
 Definition durable (st : store) (r : N) : Prop :=
   exists i, iget i (s_items st) = Some r /\
-    ((exists a b, s_ri st = Some a /\ s_wi st = Some b /\ (a <= i < b)%N) \/ In i (di_of st)).
+    ((fst (eff st) <= i < snd (eff st))%N \/ In i (di_of st)).
 
 (* executable version, for the Witness examples and the refutations *)
 Fixpoint range_has (items : list (N * N)) (a : N) (n : nat) (r : N) : bool :=
@@ -21,10 +28,8 @@ Fixpoint range_has (items : list (N * N)) (a : N) (n : nat) (r : N) : bool :=
   | S n' => option_eqb N.eqb (iget a items) (Some r) || range_has items (a + 1)%N n' r
   end.
 Definition durableb (st : store) (r : N) : bool :=
-  (match s_ri st, s_wi st with
-   | Some a, Some b => range_has (s_items st) a (N.to_nat (b - a)) r
-   | _, _ => false
-   end) || existsb (fun i => option_eqb N.eqb (iget i (s_items st)) (Some r)) (di_of st).
+  range_has (s_items st) (fst (eff st)) (N.to_nat (snd (eff st) - fst (eff st))) r ||
+  existsb (fun i => option_eqb N.eqb (iget i (s_items st)) (Some r)) (di_of st).
 
 Definition mem (r : N) (l : list N) : bool := existsb (N.eqb r) l.
 
@@ -32,11 +37,11 @@ Definition mem (r : N) (l : list N) : bool := existsb (N.eqb r) l.
 Definition durable_or_finalb (st : store) (evs : list event) : bool :=
   forallb (fun r => mem r (finals evs) || durableb st r) (accepted evs).
 
-(* a store on which the queue has already run: both index keys exist, ri <= wi, and the listed
-   dispatched indexes are below ri *)
+(* a store the queue can have written: ri <= wi (as decoded), no read index without a write index,
+   the listed dispatched indexes are below ri.  The empty store is well-formed. *)
 Definition wf_store (st : store) : Prop :=
-  exists a b, s_ri st = Some a /\ s_wi st = Some b /\ (a <= b)%N /\
-              forall i, In i (di_of st) -> (i < a)%N.
+  (fst (eff st) <= snd (eff st))%N /\ (s_wi st = None -> s_ri st = None) /\
+  forall i, In i (di_of st) -> (i < fst (eff st))%N.
 
 (* the crash invariant: a predicate on the DURABLE store and the ghost events only *)
 Definition ghost_ok (evs : list event) (st : store) : Prop :=
@@ -53,58 +58,6 @@ Fixpoint calls {A} (m : act A) (st : store) : nat :=
   | Call ops k => S (calls (k (snd (apply_ops ops st))) (fst (apply_ops ops st)))
   end.
 
-Definition is_get (o : sop) : bool :=
-  match o with GetIdx _ | GetDi | GetItem _ => true | _ => false end.
-
-(* number of leading storage calls that only read *)
-Fixpoint ro_calls {A} (m : act A) (st : store) : nat :=
-  match m with
-  | Done _ => O
-  | Call ops k =>
-      if forallb is_get ops then S (ro_calls (k (snd (apply_ops ops st))) (fst (apply_ops ops st))) else O
-  end.
-
-(* no body is stored under any listed dispatched index (the list is stale: a previous recovery
-   already moved them) — then the delete batch of recovery deletes nothing *)
-Definition stale_di (st : store) : bool :=
-  forallb (fun i => match iget i (s_items st) with None => true | Some _ => false end) (di_of st).
-
-(* Side condition of the partial theorems for ONE incarnation started on [st] with budget [b]:
-   start-up recovery (initClient) either
-     - is cut by the death before its first mutating storage call (that call is the delete batch
-       of retrieveAndEnqueueNotDispatchedReqs: everything before it only reads), or
-     - runs to completion and no re-enqueue is refused (errCount = 0), or
-     - finds only stale dispatched entries (nothing to delete).
-   The complement is exactly the region of findings F1 (death after the delete batch, before the
-   last re-put) and F2 (re-put refused by the capacity check). *)
-Definition recovery_safe (c : cfg) (st : store) (b : option nat) : bool :=
-  let m := initClient c in
-  let completes_clean :=
-    match run_act None st m with
-    | (_, _, Some (_, errc)) => Nat.eqb errc 0
-    | _ => false
-    end in
-  stale_di st ||
-  match b with
-  | None => completes_clean
-  | Some n => if Nat.ltb n (calls m st) then Nat.leb n (ro_calls m st) else completes_clean
-  end.
-
-Fixpoint hist_safe (c : cfg) (st : store) (h : history) : Prop :=
-  match h with
-  | [] => True
-  | (sc, b) :: t => recovery_safe c st b = true /\ hist_safe c (i_store (incarnation c st sc b)) t
-  end.
-
-Fixpoint hist_safeb (c : cfg) (st : store) (h : history) : bool :=
-  match h with
-  | [] => true
-  | (sc, b) :: t => recovery_safe c st b && hist_safeb c (i_store (incarnation c st sc b)) t
-  end.
-
 (* requests pending in a store: queued ones plus listed dispatched ones *)
 Definition pending (st : store) : nat :=
-  match s_ri st, s_wi st with
-  | Some a, Some b => N.to_nat (b - a) + length (di_of st)
-  | _, _ => length (di_of st)
-  end.
+  N.to_nat (snd (eff st) - fst (eff st)) + length (di_of st).
